@@ -237,8 +237,16 @@ func impl(in hv.Val) hv.Val {
 			case <-time.After(watchdog):
 			}
 			out = append(out, blocked)
-			out = append(out, r.do(ops[k+1]))
-			if r.willBlock() {
+			xo := r.do(ops[k+1])
+			out = append(out, xo)
+			// Does X wake the blocked reader?  Decide from X's own result, not from r.buffered, which the
+			// woken reader goroutine may already have decremented (that race produced a spurious "blocked"
+			// under heavy machine load).
+			woken := r.p.Err() != nil
+			if xl, isl := xo.(hv.L); isl && ops[k+1].tag == 1 && len(xl) == 3 && hv.AsInt(xl[1]) > 0 {
+				woken = true
+			}
+			if !woken {
 				select {
 				case v := <-resCh:
 					out = append(out, v)
